@@ -477,13 +477,30 @@ def _value_compares(fn, calls):
             if reg:
                 foreign.append(reg)
     out = []
+    seen = set()
     for key, d in disp.items():
         if key not in alias:
             continue
         for c in d.cmps:
             if all((c.block not in reg) or (call_blocks & reg) for reg in foreign):
                 out.append(c)
-    return out
+                seen.add(c.node["id"])
+    # comparisons whose truth value is stored or returned instead of branched on
+    # (`const bool known = a == "x" || a == "y";` - the last operand decides no branch)
+    extra = []
+    for n in fn.walk():
+        if n["id"] in seen or n.get("k") not in ("CXXOperatorCallExpr", "CallExpr", "BinaryOperator"):
+            continue
+        pc = parse_str_compare(n)
+        if not pc or _subject_key(pc[0]) not in alias:
+            continue
+        pos = fn.cfg.block_of(n)
+        blk = pos[0] if pos else None
+        if all((blk not in reg) or (call_blocks & reg) for reg in foreign):
+            if not any(x["id"] in seen for x in walk(n)):
+                extra.append(pc[1])
+                seen.add(n["id"])
+    return out, extra
 
 
 def _xsd_algorithm(root):
@@ -602,10 +619,12 @@ def rule_algorithms(ctx):
     fwd_info = []
     for fn, calls in forwarders:
         ctx.saw(fn)
-        rel = _value_compares(fn, calls)
+        rel, extra = _value_compares(fn, calls)
         validated = {}
         for c in rel:
             validated.setdefault(c.lit, []).append(c)
+        for lit in extra:
+            validated.setdefault(lit, [])
         vd = StrDispatch(fn, rel) if rel else None
         call_blocks = {fn.cfg.block_of(c)[0] for c in calls if fn.cfg.block_of(c)}
         fwd_info.append((fn, calls, validated, vd, call_blocks))
@@ -942,7 +961,7 @@ def rule_who_depends(ctx):
         if has_getter or setter_calls or fn.qn in setters:
             # string comparisons of the algorithm name: of a getter result / the field / a local
             # initialised from them / the value handed to a setter / the setter's own parameter
-            cands = list(_value_compares(fn, setter_calls)) if setter_calls else []
+            cands = list(_value_compares(fn, setter_calls)[0]) if setter_calls else []
             alias = set()
             if fn.qn == LN_SET:
                 alias |= {("v", p["decl"]) for p in fn.params}
